@@ -4,6 +4,7 @@ package eventloop
 
 // VerifYield, if set, is called at scheduling points that matter for interleaving
 // (currently: the run loop found the queue empty and is about to wait for the next event).
+// A second point, "pushed": a producer has just put an entry into the queue and released the queue lock.
 // A deterministic simulator uses it to decide when the goroutine proceeds.
 var VerifYield func(point string)
 
